@@ -304,7 +304,9 @@ mod repr {
 
         // residue = g - rhs * b
         let brhs_len = rhs_clone.len() + b.len();
-        let (residue, mut memory) = memory.allocate_slice_fill(brhs_len + 1, 0);
+        // the residue is divided by lhs below, so it needs at least lhs_len words
+        // (it is shorter when the cofactor b is short, e.g. when rhs divides lhs)
+        let (residue, mut memory) = memory.allocate_slice_fill((brhs_len + 1).max(lhs_len), 0);
         mul::multiply(&mut residue[..brhs_len], rhs_clone, &b, &mut memory);
         match b_sign {
             Sign::Negative => {
